@@ -982,7 +982,11 @@ func ruleNilObj(c *Ctx) {
 						}
 					}
 				}
-				c.Check(okNN, key, P.pos(in.Pos()), "dominated by a non-nil test (or a fresh allocation) of the same field", fmt.Sprintf("%s is dereferenced without a dominating nil test although other code treats it as optional: a schema written as a bare type name (\"array\", \"map\", \"fixed\") panics here", fieldKey(fa)))
+				if !okNN && (fn.Object() == nil || !fn.Object().Exported()) {
+					// an unexported helper: the same field is known non-nil at every call site
+					okNN = nonNilAtEveryCall(P, fn, path)
+				}
+				c.Check(okNN, key, P.pos(in.Pos()), "dominated by a non-nil test (or a fresh allocation) of the same field, here or at every call site of this unexported helper", fmt.Sprintf("%s is dereferenced without a dominating nil test although other code treats it as optional: a schema written as a bare type name (\"array\", \"map\", \"fixed\") panics here", fieldKey(fa)))
 			}
 		}
 	}
@@ -1100,4 +1104,40 @@ func fieldThroughStructCopy(ld *ssa.UnOp) ssa.Value {
 		b = src
 	}
 	return nil
+}
+
+// nonNilAtEveryCall: fn is only ever called statically, and at each call the
+// value with access path `path` (in fn's terms) is known to be non-nil.
+func nonNilAtEveryCall(P *Program, fn *ssa.Function, path string) bool {
+	n := 0
+	for _, g := range P.ModuleFuncs() {
+		for _, b := range g.Blocks {
+			for _, in := range b.Instrs {
+				for _, op := range in.Operands(nil) {
+					if *op != ssa.Value(fn) {
+						continue
+					}
+					call, isCall := in.(*ssa.Call)
+					if !isCall || call.Call.Value != ssa.Value(fn) {
+						return false // used as a value, deferred or started as a goroutine
+					}
+					tp, ok := translatePath(path, fn, call.Call.Args)
+					if !ok {
+						return false
+					}
+					known := false
+					for _, cmp := range cmpFactsAt(b) {
+						if cmp.Op == token.NEQ && isNilConst(cmp.Y) && accessPath(cmp.X) == tp {
+							known = true
+						}
+					}
+					if !known {
+						return false
+					}
+					n++
+				}
+			}
+		}
+	}
+	return n > 0
 }
